@@ -89,6 +89,7 @@ func (n *LocalNode) stabilize() error {
 	}
 
 	n.lastStabilized.Store(time.Now())
+	verifhook.At("stab:computed", n.ID())
 
 	listHash := n.hash(succList)
 	if modified && n.succListHash.Load() != listHash {
